@@ -332,43 +332,67 @@ func (c *Ctx) classifyErr(p *errProducer) errVerdict {
 				continue
 			}
 			success := false
+			// where each nil result comes from: the return's own block, or the
+			// predecessor that carries nil into a join in front of the return
+			// (`err := helper(); close(ch); return err` after expansion)
+			var origins []*ssa.BasicBlock
+			var expand func(v ssa.Value, at *ssa.BasicBlock, depth int)
+			expand = func(v ssa.Value, at *ssa.BasicBlock, depth int) {
+				if phi, ok := v.(*ssa.Phi); ok && depth < 3 {
+					for k, e := range phi.Edges {
+						expand(e, phi.Block().Preds[k], depth+1)
+					}
+					return
+				}
+				if isNilConst(v) {
+					origins = append(origins, at)
+				}
+			}
 			for i := 0; i < sig.Len(); i++ {
 				if isErrorType(sig.At(i).Type()) {
+					if _, isPhi := ret.Results[i].(*ssa.Phi); isPhi {
+						expand(ret.Results[i], ret.Block(), 0)
+						continue
+					}
 					for _, rv := range c.resultValues(ret, i) {
 						if isNilConst(rv) {
-							success = true
+							origins = append(origins, ret.Block())
 						}
 					}
 				}
 			}
+			success = len(origins) > 0
 			if !success || c.isNonScanningReturn(ret) {
 				continue
 			}
-			dominated := false
-			for _, iff := range checks {
-				if instrDominates(iff, ret) {
-					dominated = true
+			for _, origin := range origins {
+				dominated := false
+				last := origin.Instrs[len(origin.Instrs)-1]
+				for _, iff := range checks {
+					if instrDominates(iff, last) || iff == last {
+						dominated = true
+					}
 				}
-			}
-			// `if errors.Is(err, io.EOF) { return nil }` written before the nil test:
-			// the end-of-stream sentinel of a line reader is the one error that means success
-			if !dominated {
-				dominated = guardedBy(ret.Block(), func(cond ssa.Value, truth bool) bool {
-					if !truth {
+				// `if errors.Is(err, io.EOF) { return nil }` written before the nil test:
+				// the end-of-stream sentinel of a line reader is the one error that means success
+				if !dominated {
+					dominated = guardedBy(origin, func(cond ssa.Value, truth bool) bool {
+						if !truth {
+							return false
+						}
+						if call, ok := cond.(*ssa.Call); ok && calleeQ(&call.Call) == "errors.Is" && len(call.Call.Args) == 2 {
+							return vals[call.Call.Args[0]] && c.isGlobal(call.Call.Args[1], "io", "EOF")
+						}
+						if cmp, ok := isCmp(cond, token.EQL); ok {
+							return (vals[cmp.X] && c.isGlobal(cmp.Y, "io", "EOF")) || (vals[cmp.Y] && c.isGlobal(cmp.X, "io", "EOF"))
+						}
 						return false
-					}
-					if call, ok := cond.(*ssa.Call); ok && calleeQ(&call.Call) == "errors.Is" && len(call.Call.Args) == 2 {
-						return vals[call.Call.Args[0]] && c.isGlobal(call.Call.Args[1], "io", "EOF")
-					}
-					if cmp, ok := isCmp(cond, token.EQL); ok {
-						return (vals[cmp.X] && c.isGlobal(cmp.Y, "io", "EOF")) || (vals[cmp.Y] && c.isGlobal(cmp.X, "io", "EOF"))
-					}
-					return false
-				})
-			}
-			if !dominated {
-				problems = append(problems, "a success return is reachable after the operation without passing the test of its error")
-				probPos = ret.Pos()
+					})
+				}
+				if !dominated {
+					problems = append(problems, "a success return is reachable after the operation without passing the test of its error")
+					probPos = ret.Pos()
+				}
 			}
 		}
 	}
